@@ -51,7 +51,8 @@ def replay_for_line(lines, n):
         return {"trace_tail": lines[max(0, n - 5):n]}
 
     def conf(cid):
-        return {"id": cid, "nodes": [{"id": k, "types": v} for k, v in sorted(net["confs"][cid].items())]}
+        return {"id": cid, "nodes": [{"id": k, "types": ["coordinator" if t == "coord" else t for t in v["t"]], "addrs": v["a"]}
+                                     for k, v in sorted(net["confs"][cid].items())]}
     cids = sorted(net["confs"])
     if net.get("kind") == "dynamic":
         return {"dynamic": True, "c1": conf(net["c1"]), "c2": conf(net["c2"])}
@@ -114,7 +115,7 @@ def self_test(ctx, trace):
         o = json.loads(line)
         if o["ev"] == "Net":
             seen = set()
-            pool = sorted(set(k for c in o["confs"].values() for k, v in c.items() if "tree" in v))
+            pool = sorted(set(k for c in o["confs"].values() for k, v in c.items() if "tree" in v["t"]))
         if o["ev"] == "Query":
             key = (o["cid"], o["space"][-1])
             cand = [p for p in pool if p not in o["members"]]
